@@ -135,6 +135,17 @@ func TestC15_Public(t *testing.T) {
 			g.Fatalf("NewChacha20PRG failed for the twin: %v", err)
 		}
 		var pos uint64
+		// slices returned earlier must stay what they were while the generator is used further (no aliasing of an internal buffer)
+		type keptInts struct {
+			out, copyOf []int
+			what       string
+		}
+		var kept []keptInts
+		keep := func(p []int, what string) {
+			if len(kept) < 8 {
+				kept = append(kept, keptInts{p, append([]int{}, p...), what})
+			}
+		}
 		maxSteps := 16
 		if thorough() {
 			maxSteps = 40
@@ -142,7 +153,25 @@ func TestC15_Public(t *testing.T) {
 		steps := g.Int("steps", 1, maxSteps)
 		nontrivial := false
 		for step := 0; step < steps; step++ {
-			switch g.Int("action", 0, 9) {
+			action := g.Int("action", 0, 9)
+			if action <= 3 && g.Chance("rawRead", 1, 6) {
+				// a plain Read between the helper calls (both read paths of the generator: <= 64 bytes and > 64 bytes); the
+				// helpers that follow must continue from the byte after it, on the generator and on its twin
+				k := []int{1, 63, 64, 65, 100, 128, 200, 1000}[g.Pick("rawReadLen", 8)]
+				b1, b2 := make([]byte, k), make([]byte, k)
+				r.Read(b1)
+				twin.Read(b2)
+				if want := chacha.Keystream(seed, nonce, pos, k); !bytes.Equal(b1, want) || !bytes.Equal(b2, want) {
+					g.Fatalf("Read(%d) at stream offset %d differs from the keystream", k, pos)
+				}
+				if p := streamPos(g, r, seed, nonce, pos, 1<<17); p != pos+uint64(k) {
+					g.Fatalf("after Read(%d) at stream offset %d a generator restored from Store() continues at offset %d instead of %d: the helpers would not give equal outputs for equal states", k, pos, p, pos+uint64(k))
+				}
+				pos += uint64(k)
+				g.Class("rawReadBetweenHelpers")
+				continue
+			}
+			switch action {
 			case 0, 1, 2, 3: // UintN
 				n := c15DrawN(g)
 				got, got2 := r.UintN(n), twin.UintN(n)
@@ -184,6 +213,7 @@ func TestC15_Public(t *testing.T) {
 				if !equalInts(p1, p2) {
 					g.Fatalf("Permutation(%d) at offset %d differs between two generators with the same seed and customizer", n, pos)
 				}
+				keep(p1, fmt.Sprintf("Permutation(%d)", n))
 				want, used := modelPermutation(seed, nonce, pos, n)
 				if !equalInts(p1, want) {
 					c15ModelMismatch(g, "Permutation(%d) at stream offset %d = %v, inside-out Fisher-Yates over the keystream gives %v", n, pos, c15Head(p1), c15Head(want))
@@ -217,6 +247,7 @@ func TestC15_Public(t *testing.T) {
 				if !equalInts(p1, p2) {
 					g.Fatalf("SubPermutation(%d,%d) at offset %d differs between two generators with the same seed and customizer", n, m, pos)
 				}
+				keep(p1, fmt.Sprintf("SubPermutation(%d,%d)", n, m))
 				// the position is taken from the generator: the documentation does not
 				// say how many of the n draws of a full permutation are made
 				pos = streamPos(g, r, seed, nonce, pos, 1<<17)
@@ -336,6 +367,11 @@ func TestC15_Public(t *testing.T) {
 		twin.Read(buf2)
 		if want := chacha.Keystream(seed, nonce, pos, 24); !bytes.Equal(buf, want) || !bytes.Equal(buf2, want) {
 			g.Fatalf("after the history the generators do not continue the keystream at offset %d", pos)
+		}
+		for _, k := range kept {
+			if !equalInts(k.out, k.copyOf) {
+				g.Fatalf("the slice returned by %s changed while the generator was used further: it was %v, the same slice now holds %v", k.what, c15Head(k.copyOf), c15Head(k.out))
+			}
 		}
 		if nontrivial {
 			g.NonTrivial()
